@@ -20,7 +20,9 @@ ASSUMPTIONS = ['new codes are identifier-shaped without double underscore and do
                'the government sector has no name parameter for its good: its built-in DEM_GOOD / PRIM_BAL are left out '
                'of the comparison when the good is renamed (the program declares the renamed demand explicitly)']
 
-NEWCODES = {'GOV': ['GVT', 'G2', 'State'], 'HH': ['HOUSE', 'H1', 'hh_x'], 'BUS': ['FIRM', 'B9', 'Corp'],
+# (some new codes are contained in others - STATE / TA / AT / ST, GVT / GV - : a code is a label, not a pattern)
+NEWCODES = {'GOV': ['GVT', 'G2', 'State', 'STATE', 'STATE'], 'HH': ['HOUSE', 'H1', 'hh_x', 'TA', 'ST'],
+            'BUS': ['FIRM', 'B9', 'Corp', 'AT', 'GV'],
             'TF': ['TAXES', 'TX'], 'GOOD': ['WIDGET', 'GD', 'Bread'], 'LAB': ['WORK', 'LB', 'Labour'],
             'CAP': ['RENTIER', 'CP']}
 NEWCOUNTRY = {'CA': 'KA', 'US': 'USA', 'C1': 'Q7', 'X': 'Zed', 'JP': 'NIPPON', 'UK': 'GB'}
